@@ -26,7 +26,7 @@ def run_shard(shard):
             if idx % k != r:
                 continue
             res.c["candidates"] += 1
-            progcheck.check_program(res, "c06:" + scopes.key(t), scopes.render(t), cfgs, env=scopes.env)
+            progcheck.check_program(res, "c06:" + scopes.key(t), scopes.render(t), cfgs, env=scopes.env, envname="scopes")
         return res
     n, si, r, k, cfgs = shard
     res = core.ShardResult()
@@ -39,7 +39,7 @@ def run_shard(shard):
         res.c["candidates"] += 1
         src = scopes.render(t)
         key = "c06:" + scopes.key(t)
-        nf = progcheck.check_program(res, key, src, cfgs, env=scopes.env)
+        nf = progcheck.check_program(res, key, src, cfgs, env=scopes.env, envname="scopes")
         if nf == 0 and idx % 499 == 0:
             res.sample({"key": key, "source": src})
     return res
@@ -96,7 +96,7 @@ def replay(payload):
         print("no source in replay file")
         return 2
     res = core.ShardResult()
-    progcheck.check_program(res, payload["key"], src, [payload["cfg"]] if payload.get("cfg") is not None else None, env=scopes.env)
+    progcheck.check_program(res, payload["key"], src, [payload["cfg"]] if payload.get("cfg") is not None else None, env=scopes.env, envname="scopes")
     for f in res.fails:
         print("still failing:", f[0], core.cfg_name(f[1]), f[3], f[4])
     return 1 if res.fails else 0
